@@ -8,15 +8,20 @@
   every crash point (C09). For the five calls of the property's quantifier, run
   sequentially from a store whose indexes agree, every other pid also keeps its
   place on its (possibly shared) cid reference list and its object at every
-  crash point (`others_fully_kept_at_every_crash_point`). The recovery part
-  (delete_object then store_object succeeds from every crash state) is
-  established on the real code by the crash-point sweep of this check and is
-  stated, not proved, for the model.
+  crash point (`others_fully_kept_at_every_crash_point`), and the interrupted
+  pid is never wedged: from the store a crash leaves at any point,
+  `delete_object(pid)` returns normally or reports the pid unknown, then
+  `store_object(pid, data)` returns normally, then `retrieve_object(pid)` returns
+  the data (`never_wedged_after_a_crash`; this rests on `recover_any`, which holds
+  from *any* store whose list texts are empty or newline-terminated — no
+  consistency assumed). Not proved: the same under a fault plan that stays active
+  during the recovery, and with validation arguments on the recovery store.
 -/
 import HSModel.Proofs.Shape
 import HSModel.Proofs.RunInv
 import HSModel.Proofs.AbsLemmas
 import HSModel.Proofs.TrailStore
+import HSModel.Proofs.TrailNl
 namespace HS.C10
 variable (cfg : Config) (o : Oracle)
 
@@ -226,5 +231,42 @@ theorem otherKept_means (q c : Str) (s s' : Store) (hk : OtherKept o q s s')
     s'.pidRefs.get (o.hId q) = some c ∧
     (∀ t, s.cidRefs.get c = some t → inRefs q t = true → ∃ t', s'.cidRefs.get c = some t' ∧ inRefs q t' = true) ∧
     (∀ x, s.objs.get c = some x → s'.objs.get c = some x) := hk c hb
+
+/-- **recovery from any store** (no consistency assumed): see `Proofs/Recover.lean` -/
+theorem recovery_from_any_store (S : Store) (log : List Eff) (p : Str) (t' : Tok) (hp : checkStringOk p = true)
+    (hok : OkDigests o) (hnl : AllNl S.cidRefs)
+    (hfree : S.objs.get (o.dig cfg.alg t') = none ∨ S.objs.get (o.dig cfg.alg t') = some t') :
+    ∃ r1 w1 m w2, (deleteObject cfg o (.str p)).run (calm S log) = (r1, w1) ∧
+      (r1 = .ok .unit ∨ r1 = .error .pidRefsDoesNotExist) ∧
+      (storeObject cfg o (.str p) (.ok t') .none .none .none .none).run w1 = (.ok (.objMeta m), w2) ∧
+      ((retrieveObject cfg o (.str p)).run w2).1 = .ok (.content t') :=
+  recover_any cfg o S log p t' hp hok hnl hfree
+
+/-- **never wedged**: take any of store_object, tag_object, delete_object,
+    store_metadata, delete_metadata with any arguments, started from a store
+    whose indexes agree, and let the process die at any point `n`. On the store
+    that is left (locks gone, as after a restart), for any pid `p` — the
+    interrupted one in particular — and any data whose address holds no foreign
+    content: `delete_object(p)` returns normally or reports `p` unknown,
+    `store_object(p, data)` then returns normally, and `retrieve_object(p)`
+    returns exactly the data -/
+theorem never_wedged_after_a_crash (c : Call) (st : Store) (log log' : List Eff) (n : Nat) (p : Str) (t' : Tok)
+    (h : RefsExact o st) (ho : GoodOracle o) (hp : checkStringOk p = true)
+    (hc : (∃ a b d e f g, c = .storeObject a b d e f g) ∨ (∃ a b, c = .tagObject a b) ∨ (∃ a, c = .deleteObject a) ∨
+          (∃ a b d, c = .storeMetadata a b d) ∨ (∃ a b, c = .deleteMetadata a b))
+    (hfree : let S := (Prog.crashAt n (c.prog cfg o) (calm st log)).2.st
+             S.objs.get (o.dig cfg.alg t') = none ∨ S.objs.get (o.dig cfg.alg t') = some t') :
+    let S := (Prog.crashAt n (c.prog cfg o) (calm st log)).2.st
+    ∃ r1 w1 m w2, (deleteObject cfg o (.str p)).run (calm S log') = (r1, w1) ∧
+      (r1 = .ok .unit ∨ r1 = .error .pidRefsDoesNotExist) ∧
+      (storeObject cfg o (.str p) (.ok t') .none .none .none .none).run w1 = (.ok (.objMeta m), w2) ∧
+      ((retrieveObject cfg o (.str p)).run w2).1 = .ok (.content t') := by
+  intro S
+  have hnl : AllNl S.cidRefs := by
+    rcases Prog.crashAt_in_trail (c.prog cfg o) n (calm st log) with h0 | h0
+    · show AllNl (Prog.crashAt n (c.prog cfg o) (calm st log)).2.st.cidRefs
+      rw [h0]; exact allNl_of_exact o h
+    · exact trail_nl cfg o c st log h ho hc _ h0
+  exact recover_any cfg o S log' p t' hp ho.okDigests hnl hfree
 
 end HS.C10
